@@ -141,7 +141,12 @@ func runHistory(seed int64, steps int) []string {
 			add(nject.Sequence(fmt.Sprintf("q%d", s), h.c, fresh(), g.c), op)
 		case 1:
 			op = "append"
-			add(h.c.Append(fmt.Sprintf("a%d", s), fresh(), pickColl().c), op)
+			if rng.Intn(2) == 0 {
+				// a single provider: fits into spare capacity of the base's array, if any
+				add(h.c.Append(fmt.Sprintf("a%d", s), fresh()), op)
+			} else {
+				add(h.c.Append(fmt.Sprintf("a%d", s), fresh(), pickColl().c), op)
+			}
 		case 2:
 			anns := []func(any) nject.Provider{nject.Desired, nject.Shun, nject.Required, nject.NonFinal, nject.Cacheable, nject.NotCacheable, nject.Reorder}
 			k := rng.Intn(len(anns))
